@@ -62,6 +62,24 @@ Theorem C14_cvlan_bounds :
 Proof. exact parse_cvlan_bounds. Qed.
 Print Assumptions C14_cvlan_bounds.
 
+(* the same classification on every rebuild: Go's map iteration order (any permutation of the
+   group list, names being distinct map keys) does not change the index, the validation verdict
+   or any lookup *)
+Theorem C14_order_independent :
+  forall c c', NoDup (map fst c) -> Permutation.Permutation c c' ->
+  build c = build c' /\ validate c = validate c' /\
+  forall s cv, lookup (build c) s cv = lookup (build c') s cv.
+Proof. exact order_independent. Qed.
+Print Assumptions C14_order_independent.
+
+(* malformed range strings are rejected: whatever is accepted has the shape
+   ws* digits (ws* "-" ws* digits)? ws*  with 1 <= a <= b <= 4094, and denotes exactly a..b *)
+Theorem C14_parser_syntax :
+  forall s l, parse_vlan_range s = Some l ->
+  exists a b, vlan_syntax s a b /\ (1 <= a <= b)%N /\ (b <= 4094)%N /\ l = nseq a (N.to_nat (b - a + 1)).
+Proof. exact parse_vlan_range_syntax. Qed.
+Print Assumptions C14_parser_syntax.
+
 (* non-vacuity: a configuration with an exact and a wildcard claimant on S-VLAN 10 *)
 Definition ex_cfg : config :=
   [ ([98], [([49;48;45;50;48], [])]);                  (* "b": svlan "10-20", cvlan "" *)
@@ -71,6 +89,11 @@ Example C14_nonvacuous :
   lookup (build ex_cfg) 10 7 = Some ([98]%N, 0%nat) /\
   lookup (build ex_cfg) 10 0 = Some ([98]%N, 0%nat) /\
   lookup (build ex_cfg) 9 100 = None /\
-  validate ex_cfg <> None.
-Proof. vm_compute. repeat split; discriminate. Qed.
+  validate ex_cfg <> None /\
+  NoDup (map fst ex_cfg) /\
+  parse_vlan_range [32; 49; 48; 32; 45; 50; 48]%N = Some (nseq 10 11).
+Proof.
+  vm_compute. repeat split; try discriminate.
+  repeat constructor; simpl; intros H; repeat (destruct H as [H|H]; try discriminate H); exact H.
+Qed.
 Print Assumptions C14_nonvacuous.
